@@ -400,7 +400,8 @@ def pattern_method(interp, pat, name, args, kwargs):
 # ---------------------------------------------------------------------------
 # function models (keyed by the function object)
 def m_len(interp, args, kw):
-    x = args[0]
+    from .interp import _sh
+    x = _sh(args[0])
     if isinstance(x, (SStr, SBytes, SByteArray)):
         return len(x.ch)
     if isinstance(x, SymDict):
